@@ -50,6 +50,8 @@ pub struct AdaptiveStore {
     // Cleanup history for adaptation
     last_cleanup_removed: usize,
     last_cleanup_total: usize,
+    #[cfg(throttlecrab_verif)]
+    verif_cleanups: u64,
 }
 
 /// Builder for configuring an AdaptiveStore
@@ -100,6 +102,8 @@ impl AdaptiveStore {
             max_operations_before_cleanup: MAX_OPERATIONS_BEFORE_CLEANUP,
             last_cleanup_removed: 0,
             last_cleanup_total: 0,
+            #[cfg(throttlecrab_verif)]
+            verif_cleanups: 0,
         }
     }
 
@@ -132,6 +136,8 @@ impl AdaptiveStore {
             max_operations_before_cleanup,
             last_cleanup_removed: 0,
             last_cleanup_total: 0,
+            #[cfg(throttlecrab_verif)]
+            verif_cleanups: 0,
         }
     }
 
@@ -200,6 +206,10 @@ impl AdaptiveStore {
         self.next_cleanup = now + self.current_cleanup_interval;
         self.expired_count = 0;
         self.operations_since_cleanup = 0;
+        #[cfg(throttlecrab_verif)]
+        {
+            self.verif_cleanups += 1;
+        }
     }
 
     fn maybe_clean_expired(&mut self, now: SystemTime) {
@@ -341,3 +351,34 @@ impl AdaptiveStoreBuilder {
 // Note: A background cleanup approach could be implemented with async runtime
 // and additional dependencies (Arc, parking_lot, tokio channels) but is
 // omitted here to maintain zero dependencies
+
+/// Verification hooks (compiled only with `--cfg throttlecrab_verif`)
+#[cfg(throttlecrab_verif)]
+impl AdaptiveStore {
+    /// Number of physically stored entries
+    pub fn verif_len(&self) -> usize {
+        self.data.len()
+    }
+
+    /// Number of cleanup sweeps performed so far
+    pub fn verif_cleanups(&self) -> u64 {
+        self.verif_cleanups
+    }
+
+    /// Scheduling state: [next_cleanup (ns since epoch), current interval (ns), expired_count,
+    /// operations_since_cleanup, last_cleanup_removed, last_cleanup_total]
+    pub fn verif_snapshot(&self) -> Vec<i128> {
+        let next = match self.next_cleanup.duration_since(std::time::UNIX_EPOCH) {
+            Ok(d) => d.as_nanos() as i128,
+            Err(e) => -(e.duration().as_nanos() as i128),
+        };
+        vec![
+            next,
+            self.current_cleanup_interval.as_nanos() as i128,
+            self.expired_count as i128,
+            self.operations_since_cleanup as i128,
+            self.last_cleanup_removed as i128,
+            self.last_cleanup_total as i128,
+        ]
+    }
+}
